@@ -83,7 +83,7 @@ def scenario(tier):
         files = {"R/s.txt": 1, "R/A/a1.txt": 2, "R/A/AA/aa1.txt": 3, "R/B/b1.txt": 4}
         for f, c in files.items():
             b.mkfile(f, c)
-        layout = sym.choose("layout", [[], ["R/A/AA"], ["R/A", "R/B"]])
+        layout = sym.choose("layout", [[], ["R/A/AA"], ["R/A", "R/B"], ["R/A/AA", "R/A"]])
         for c in layout:
             for h0 in (["md5"], ["sha1"]):  # two prior generations, so that later chains have >= 3 earlier entries
                 r = b.run("create", root=c, h=h0)
@@ -103,7 +103,7 @@ def scenario(tier):
                 b.delete("R/B/b1.txt")
             elif edit == "add":
                 b.mkfile("R/A/new%d.txt" % step, 40 + step)
-            mode = sym.choose("mode%d" % step, ["folder", "sf-root-file", "sf-deep-file"])
+            mode = sym.choose("mode%d" % step, ["folder", "sf-root-file", "sf-deep-file", "sf-root-and-deep-file"])
             roots = [r for r in roots_all if b.exists(r)]
             before = state(b, roots)
             now = b.current_now()
@@ -113,6 +113,9 @@ def scenario(tier):
             elif mode == "sf-root-file":
                 r = b.run("create", root="R", h=["md5"], sf=["R/s.txt"])
                 touched = {"R"}
+            elif mode == "sf-root-and-deep-file":
+                r = b.run("create", root="R", h=["md5"], sf=["R/s.txt", "R/A/AA/aa1.txt"])
+                touched = {x for x in roots if cm.under("R/A/AA/aa1.txt", x)}
             else:
                 r = b.run("create", root="R", h=["md5"], sf=["R/A/AA/aa1.txt"])
                 touched = {x for x in roots if cm.under("R/A/AA/aa1.txt", x)}
@@ -205,7 +208,7 @@ def five_digits(b, sym):
     b.require(r.exit == 0, "reload-ok", str(r))
 
 
-def harnesses(tier):
+def _harnesses(tier):
     steps_n = 2 if tier == "quick" else 3
     return [Harness("c06-append-only", scenario(tier), frontier=6, budget_s=2400,
                     what="%d create / create -sf runs (some exiting 10/11 after symbolic tree edits) over flat and nested layouts, same or "
@@ -225,3 +228,8 @@ def harnesses(tier):
                     what="a history whose highest generation is 9998 / 9999 / 10000 / 99999 (reached by renumbering a committed generation): three "
                          "more runs are numbered max+1, chained, and reload in numeric order",
                     bounds={"highest existing generation": [9998, 9999, 10000, 99999]}, outside=[])]
+
+
+def harnesses(tier):
+    from . import tour
+    return list(_harnesses(tier)) + tour.harnesses(tier, "C06")
